@@ -510,6 +510,8 @@ class EQLTranslator:
         :param query: The comparator query
         :return: SQLAlchemy expression or None if handled via JOIN
         """
+        self._reject_inexpressible_comparison_of_two_variables(query)
+
         if self._is_attribute_equality_join(query):
             join_result = self._handle_attribute_equality_join(query)
             if join_result is not None:
@@ -530,6 +532,96 @@ class EQLTranslator:
 
         mapper = OperatorMapper()
         return mapper.map_comparison_operator(operation, left, right)
+
+    def _reject_inexpressible_comparison_of_two_variables(
+        self, query: Comparator
+    ) -> None:
+        """
+        A comparison between attributes of two different variables is only expressible if the two variables have their
+        own tables and, apart from the join of two relationship ends, if both sides are direct columns. Variables of
+        the same class or of classes with a common mapped ancestor share a table and would need an alias per variable, which the
+        translator does not create (both sides would refer to the same row); an attribute path of the second variable
+        would be joined to a table that is not part of the statement.
+
+        :param query: The comparator query
+        :raises UnsupportedQueryTypeError: If the comparator is such a comparison.
+        """
+        if not (
+            isinstance(query.left, Attribute) and isinstance(query.right, Attribute)
+        ):
+            return
+        resolver = AttributeChainResolver()
+        if resolver.extract_leaf_variable(query.left) is resolver.extract_leaf_variable(
+            query.right
+        ):
+            return
+        left_dao = resolver.extract_base_dao(query.left)
+        right_dao = resolver.extract_base_dao(query.right)
+        if left_dao is None or right_dao is None:
+            return
+        rel_resolver = RelationshipResolver()
+        joins_two_relationship_ends = (
+            self._is_attribute_equality_join(query)
+            and rel_resolver.resolve_relationship_and_foreign_key(
+                left_dao, query.left._attr_name_
+            )[0]
+            is not None
+            and rel_resolver.resolve_relationship_and_foreign_key(
+                right_dao, query.right._attr_name_
+            )[0]
+            is not None
+        )
+        if joins_two_relationship_ends and not (
+            issubclass(left_dao, right_dao) or issubclass(right_dao, left_dao)
+        ):
+            # the join of two relationship ends gives the second variable its own FROM element
+            shares_table = False
+        else:
+            left_tables = set(sqlalchemy.inspection.inspect(left_dao).tables)
+            right_tables = set(sqlalchemy.inspection.inspect(right_dao).tables)
+            shares_table = bool(left_tables & right_tables)
+        if shares_table:
+            raise UnsupportedQueryTypeError(
+                f"Cannot compare attributes of two variables that share a table: {query.left} and {query.right}"
+            )
+        if isinstance(query.left._child_, Attribute) or isinstance(
+            query.right._child_, Attribute
+        ):
+            raise UnsupportedQueryTypeError(
+                f"Cannot compare attribute paths of two variables: {query.left} and {query.right}"
+            )
+        if not joins_two_relationship_ends:
+            anchor_dao = get_dao_class(self.select_like.selected_variable._type_)
+            for dao, attribute in ((left_dao, query.left), (right_dao, query.right)):
+                if dao is anchor_dao:
+                    continue
+                # the other variable is only represented by the table of the compared column; a column inherited
+                # from a parent table would make the variable range over the rows of all sibling classes as well.
+                column_property = getattr(
+                    getattr(dao, attribute._attr_name_, None), "property", None
+                )
+                columns = getattr(column_property, "columns", None)
+                if columns and columns[0].table is not sqlalchemy.inspection.inspect(
+                    dao
+                ).local_table:
+                    raise UnsupportedQueryTypeError(
+                        f"Cannot compare with an inherited column of a second variable: {attribute}"
+                    )
+
+    @staticmethod
+    def _reject_object_valued_literal(value: Any) -> None:
+        """
+        Only plain values can be bound as parameters of the statement.
+
+        :param value: The value (or container of values) of a literal.
+        :raises UnsupportedQueryTypeError: If the literal holds an object that has a DAO (an entity).
+        """
+        values = value if isinstance(value, (list, tuple, set)) else [value]
+        for v in values:
+            if get_dao_class(type(v)) is not None:
+                raise UnsupportedQueryTypeError(
+                    f"Cannot compare with an entity given as a literal: {v}"
+                )
 
     def _is_attribute_equality_join(self, query: Comparator) -> bool:
         """
@@ -604,7 +696,9 @@ class EQLTranslator:
 
         if isinstance(operand, Literal):
             extractor = DomainValueExtractor(self.session)
-            return extractor.extract_from_literal(operand)
+            value = extractor.extract_from_literal(operand)
+            self._reject_object_valued_literal(value)
+            return value
 
         if isinstance(operand, Variable):
             extractor = DomainValueExtractor(self.session)
